@@ -20,6 +20,7 @@ import Driver.Periodic
 import Driver.Discretize
 import Driver.Edit
 import Driver.Cuthill
+import Driver.EditGeom
 /-! `xfemm_model` — line-protocol driver for the executable models.
     usage: xfemm_model <engine> [float|rat]   (requests on stdin, one reply per line on stdout) -/
 def main (args : List String) : IO UInt32 := do
@@ -39,6 +40,7 @@ def main (args : List String) : IO UInt32 := do
   | "postint" :: _ => Driver.PostInt.run stdin stdout; return 0
   | "edit" :: _ => Driver.Edit.run stdin stdout; return 0
   | "cuthill" :: _ => Driver.Cuthill.run stdin stdout; return 0
+  | "editgeom" :: _ => Driver.EditGeom.run stdin stdout; return 0
   | "discretize" :: _ => Driver.Discretize.run stdin stdout; return 0
   | "periodic" :: _ => Driver.Periodic.run stdin stdout; return 0
   | "filecodec" :: _ => Driver.FileCodec.run stdin stdout; return 0
